@@ -68,7 +68,7 @@ def Exclusive (s : State) : Prop :=
 
 The lockdep recorder prints `kvr:<ns>` (root lock of a key-value namespace, read mode),
 `kv:<ns>` (the same root lock, write mode: a store-wide operation), `kv:<ns>/<scope>` (scope
-lock), `pubd-update`, `rsync`; the driver parses these into `Lock`. -/
+lock), `pubd-update`, `rsync`, `history-cache`, `status-cache`, `signer-pending`, `signer-handle`; the driver parses these into `Lock`. -/
 
 /-- Key-value namespaces. -/
 inductive Ns where
@@ -81,6 +81,10 @@ inductive Lock where
   | scope (ns : Ns)       -- `kv:<ns>/<scope>` (all scopes of a namespace share a rank)
   | pubdUpdate
   | rsync
+  | historyCache          -- the per-store mutex of the command-history cache (`history-cache`)
+  | statusCache           -- the write lock of the CA status cache (`status-cache`)
+  | signerPending         -- the signer router's set of not yet bound signers (`signer-pending`)
+  | signerHandle          -- the soft signer's handle (`signer-handle`)
 deriving DecidableEq, Repr
 
 /-- Level of a key-value namespace in the hierarchy. Entity stores first (a command of an
@@ -99,6 +103,36 @@ def rank : Lock → Nat
   | .scope ns => nsLevel ns * 10 + 5
   | .pubdUpdate => 5
   | .rsync => 70
+  -- in-process caches that are *not* leaf locks: a history request holds the history mutex
+  -- while it reads every stored command (a scope lock of the entity store each); a status
+  -- update holds the status cache while it writes the status file (a scope lock of `status`).
+  -- Both are taken with nothing else held.
+  | .historyCache => 2
+  | .statusCache => 3
+  -- the signer router is entered from inside CA commands and the published-object store
+  -- (signing), and binds pending signers / records keys in the signer store from there
+  | .signerPending => 35
+  | .signerHandle => 36
+
+/-! ### Lock sites in the source (`Generated/LockSites.lean`)
+
+The lock-order recorder only sees annotated lock sites.  A lock is a *leaf* when no site
+keeps its guard over following statements (`held`); leaf locks cannot be part of a cycle and
+need no annotation.  For every other lock, every site must be annotated – otherwise a nesting
+through an unannotated site would be invisible to the correspondence. -/
+
+structure Site where
+  lock : Nat
+  held : Bool
+  annotated : Bool
+  exempt : Bool
+deriving DecidableEq, Repr
+
+def nonLeaf (sites : List Site) (l : Nat) : Bool := sites.any fun s => s.lock == l && s.held
+
+def siteOk (sites : List Site) (s : Site) : Bool := s.annotated || s.exempt || !(nonLeaf sites s.lock)
+
+def sitesOk (sites : List Site) : Bool := sites.all (siteOk sites)
 
 /-- An observed `held → wanted` edge respects the ranking. -/
 def edgeOk (held wanted : Lock) : Bool := rank held < rank wanted
